@@ -64,7 +64,7 @@ theorem appendEntryNode_step {f : Forest} {e nm : Nat} {N A S : List HTree} (h :
   cases hf : (Sect.sec k N A).find? (fun c => entryKey c.value == entryKey v) with
   | some n =>
     obtain ⟨hkey, s1, s2, hs, hs1⟩ := find?_key_split _ _ _ hf
-    obtain ⟨heq, hinv, hmap, hnodes⟩ := insert_existing h k v hm n s1 s2 hs hkey hs1
+    obtain ⟨heq, hinv, hmap, hnodes⟩ := insert_existing h k v hm n s1 s2 hs _ hkey hs1
     simp only
     rw [heq]
     refine ⟨_, f.roots, ⟨rfl, hinv, Nat.le_refl _⟩, (by first | rfl | trivial), hmap, ?_, fun hn => (by cases hn)⟩
